@@ -9,6 +9,9 @@ fn main() {
         eprintln!("usage: h-history C15 <master|worker|replay|digests|one> [--tier ..] [--seed ..]");
         std::process::exit(2);
     }
+    if args[1] == "C15" && args[2] == "probe" {
+        std::process::exit(c15::probe_main());
+    }
     if args[1] == "time" {
         c15::timing();
         return;
